@@ -51,6 +51,11 @@ def cases(tier, rng):
     yield {'objs': [], 'compression': 'gzip', 'via': 'path'}
     yield {'objs': [{}, {'a': 'x\ny'}, {}], 'compression': 'zstd', 'via': 'path'}
     yield {'objs': [{'a': i, 's': 'x' * 50} for i in range(3000)], 'compression': None, 'via': 'shortread'}
+    # the `encoding` argument, given to writer and reader alike (encodings that write a byte-order mark once per file)
+    for encn in ('utf-16', 'utf-32', 'utf-8-sig', 'utf-8'):
+        for comp in (None, 'gzip'):
+            yield {'objs': [{'a': 1}, {'b': 'é😀'}, {}, {'c': [1, 2]}], 'compression': comp, 'via': 'path', 'encoding': encn}
+            yield {'objs': [], 'compression': comp, 'via': 'path', 'encoding': encn}
     for comp in (None, 'gzip', 'zstd'):
         for suffix in ('.gz', '.zst', '.jsonl'):
             yield {'objs': [{'a': 1}, {'b': 'x'}, {}], 'compression': comp, 'via': 'path', 'suffix': suffix}
@@ -70,7 +75,8 @@ def cases(tier, rng):
         else:
             objs = [gen_obj(rng) for _ in range(k)]
         yield {'objs': objs, 'compression': rng.choice([None, 'gzip', 'zstd']), 'via': rng.choice(['path', 'path', 'open_obj', 'fileobj', 'shortread', 'at_completion']),
-               'suffix': rng.choice(['', '', '.jsonl', '.gz', '.zst', '.json.gz', '.jsonl.zst'])}
+               'suffix': rng.choice(['', '', '.jsonl', '.gz', '.zst', '.json.gz', '.jsonl.zst']),
+               'encoding': rng.choice([None, None, None, 'utf-16', 'utf-32', 'utf-8-sig'])}
 
 
 def real(case):
@@ -89,6 +95,8 @@ def real(case):
         return open(name + '.alt', mode)
     try:
         kw = {'compression': case['compression']}
+        if case.get('encoding'):
+            kw['encoding'] = case['encoding']
         if case['via'] == 'open_obj':
             kw['open_obj'] = my_open
         if case['via'] == 'at_completion':
@@ -119,12 +127,12 @@ def real(case):
                     if n is None or n < 0:
                         return self.b.read()
                     return self.b.read(max(1, n // (2 + self.k % 3)))
-            rsjson.load_from_file(Short(raw), compression=case['compression']).subscribe(on_next=back.append, on_error=errs.append)
+            rsjson.load_from_file(Short(raw), **{k: v for k, v in kw.items() if k != 'open_obj'}).subscribe(on_next=back.append, on_error=errs.append)
         elif case['via'] == 'at_completion':
             pass
         elif case['via'] == 'fileobj':
             src = io.BytesIO(raw)
-            rsjson.load_from_file(src, compression=case['compression']).subscribe(on_next=back.append, on_error=errs.append)
+            rsjson.load_from_file(src, **{k: v for k, v in kw.items() if k != 'open_obj'}).subscribe(on_next=back.append, on_error=errs.append)
         else:
             rsjson.load_from_file(path, **kw).subscribe(on_next=back.append, on_error=errs.append)
     finally:
@@ -151,6 +159,8 @@ def model_result(case, ans):
 def compare(case, r, m):
     if 'harness_exc' in r:
         return 'harness: ' + r['harness_exc']
+    if case.get('encoding'):
+        return None         # the model reads utf-8 files; other encodings are judged by the round-trip oracle (and C17)
     import common as C
     import json
     try:
